@@ -851,10 +851,15 @@ async fn main(plan: Plan) -> Outcome {
                             out.violation(
                                 "c14.announced_id_not_presented",
                                 format!(
-                                    "caller {c}: an earlier execution of the SELECT was answered with a new result metadata id ({:02x?}..), but the execution marker {} presents {:02x?}..",
+                                    "caller {c}: an earlier execution of the SELECT was answered with a new result metadata id ({:02x?}..), but the execution marker {} presents {:02x?}..; SELECT executions of this caller (marker, conn, extension, presented id, answer): {:?}",
                                     &x[..x.len().min(2)],
                                     o.marker,
-                                    &presented[..presented.len().min(2)]
+                                    &presented[..presented.len().min(2)],
+                                    execs
+                                        .iter()
+                                        .filter(|e| !e.is_batch && e.text == SEL)
+                                        .map(|e| (e.marker, e.conn, world::world().conns[e.conn].cql.metadata_id_ext, e.presented_md_id.as_ref().map(|i| i.iter().take(2).map(|b| format!("{b:02x}")).collect::<String>()), format!("{:?}", e.answer)))
+                                        .collect::<Vec<_>>()
                                 ),
                             );
                         }
@@ -867,7 +872,12 @@ async fn main(plan: Plan) -> Outcome {
                     expect = None;
                     continue;
                 }
-                for e in &frames {
+                // ... and only the answer that completed the call certainly arrived (an
+                // earlier attempt's answer may have been lost with its connection).
+                if frames.iter().any(|e| e.answer == Answer::Unprepared) {
+                    expect = None;
+                }
+                for e in frames.last() {
                     match e.answer {
                         Answer::Unprepared => expect = None,
                         Answer::Rows { version, with_metadata: true } if world::world().conns[e.conn].cql.metadata_id_ext => {
@@ -912,7 +922,10 @@ async fn main(plan: Plan) -> Outcome {
                     learnt = false;
                     continue;
                 }
-                for e in &frames {
+                if frames.iter().any(|e| e.answer == Answer::Unprepared) {
+                    learnt = false;
+                }
+                for e in frames.last() {
                     match e.answer {
                         Answer::Unprepared => learnt = false,
                         Answer::Rows { with_metadata: true, .. } | Answer::Void | Answer::Other if world::world().conns[e.conn].cql.metadata_id_ext && e.presented_md_id.as_ref() != Some(&real_id) => {
